@@ -4,7 +4,8 @@ from .common import CFGS
 META = {
     "bounds": {"quick": {"data": "P,N <= 2 symbolic sorted scores; GroupScores with 2 groups", "samplers": "identity, deterministic callable (j-th call drops element j mod n), built-in replacement by_label on RNG stubs",
                          "nb_samples": "1, 2, 3", "metrics": "by name (fnr, tpr, group_fnr, cm matrix) and callables with scalar / vector / matrix output and a symbolic threshold kwarg",
-                         "CI methods": "quantile, bc, bca"},
+                         "CI methods": "quantile, bc, bca",
+                         "dynamic sampling": "Scores / GroupScores with 2+2 scores, size threshold stubbed to 2 and 3 (instead of 100), every stratification, drawn values pinned: RNG call sequence of bootstrap_metric/_ci = that of bootstrap_sample"},
                "thorough": {"data": "P,N <= 3", "nb_samples": "1..4"}},
     "assumptions": ["R-ideal", "samples are captured by a spy around bootstrap_sample (instance attribute), so 'row j = metric of the j-th sample' is checked against the very objects the sampler returned",
                     "reproducibility for a fixed seed is decided in two parts: the code draws randomness only through np.random.* stubs (logged), and a concrete replay with real seeds (auxiliary regression run)"],
@@ -20,6 +21,8 @@ def items(tier):
                 out.append({"kind": "rows", "nb": nb, "metric": metric, "sampler": sampler})
         out.append({"kind": "rows", "nb": nb, "metric": "fnr", "sampler": "builtin"})
         out.append({"kind": "group_rows", "nb": nb})
+    for cls in ("Scores", "GroupScores"):
+        out.append({"kind": "dynamic_rows", "cls": cls})
     for method in ("quantile", "bc", "bca"):
         out.append({"kind": "ci", "method": method, "sampler": "identity", "nb": 3})
         out.append({"kind": "ci", "method": method, "sampler": "dropper", "nb": 2 if method == "bca" else 3})
@@ -107,6 +110,57 @@ def run_rows(h, nb, metric, sampler):
         h.check("identity sampler: the very same object is measured", all(s is S for s in seen))
     if sampler == "builtin" and h.mode == "sym":
         h.check("randomness is drawn only through the global np.random functions (seedable)", all(not e["fn"].startswith("Generator.") for e in h.rng_log()) and len(h.rng_log()) >= nb)
+
+
+def _lower_threshold(h, value):
+    """SINGLE_PASS_SAMPLE_THRESHOLD (100 scores per class) lowered in every module of the package that holds the name, so
+    that the 'dynamic' method reaches its single-pass branch with 2+2 scores; returns the undo list"""
+    import sys
+
+    root = h.sa.__name__
+    undo = []
+    for k, mod in list(sys.modules.items()):
+        if mod is not None and (k == root or k.startswith(root + ".")) and hasattr(mod, "SINGLE_PASS_SAMPLE_THRESHOLD"):
+            undo.append((mod, mod.SINGLE_PASS_SAMPLE_THRESHOLD))
+            mod.SINGLE_PASS_SAMPLE_THRESHOLD = value
+    return undo
+
+
+def run_dynamic_rows(h, cls):
+    """built-in 'dynamic' sampling: the replicates of bootstrap_metric / bootstrap_ci are drawn exactly the way
+    bootstrap_sample(config) draws a sample of the same object (same sequence of RNG calls, with/without replacement),
+    for every stratification the class supports, below and above the single-pass size threshold."""
+    pos, neg = h.reals("p", 2), h.reals("n", 2)
+    for a in (pos, neg):
+        h.assume(a[0] <= a[1])
+    t = h.real("t")
+    sig = lambda log: [(e["fn"], repr(e["args"].get("replace"))) for e in log]
+    for thr in (2, 3):          # 2: both classes reach the threshold (single pass eligible); 3: they do not
+        undo = _lower_threshold(h, thr)
+        try:
+            if cls == "Scores":
+                obj = h.sa.Scores(h.array(pos), h.array(neg), is_sorted=True)
+                strats = (None, "by_label")
+            else:
+                obj = h.sa.GroupScores(h.array(pos), h.array(neg), pos_groups=[0, 1], neg_groups=[1, 0], is_sorted=True)
+                strats = (None, "by_label", "by_group")
+            h.policy(rng_pinned=True)
+            for strat in strats:
+                cfg = h.sa.BootstrapConfig(nb_samples=1, sampling_method="dynamic", stratified_sampling=strat)
+                n0 = len(h.rng_log())
+                obj.bootstrap_sample(cfg)
+                a = sig(h.rng_log()[n0:])
+                n1 = len(h.rng_log())
+                obj.bootstrap_metric("fnr", config=cfg, threshold=t)
+                b = sig(h.rng_log()[n1:])
+                h.check(f"[{cls}, dynamic/{strat}, threshold {thr}] bootstrap_metric draws its replicate with the RNG calls of bootstrap_sample(config)", a == b and len(a) > 0)
+                n2 = len(h.rng_log())
+                obj.bootstrap_ci("fnr", config=cfg, threshold=t)
+                c = sig(h.rng_log()[n2:])
+                h.check(f"[{cls}, dynamic/{strat}, threshold {thr}] bootstrap_ci draws its replicate with the RNG calls of bootstrap_sample(config)", a == c)
+        finally:
+            for mod, v in undo:
+                mod.SINGLE_PASS_SAMPLE_THRESHOLD = v
 
 
 def run_group_rows(h, nb):
